@@ -98,6 +98,16 @@ pub fn lab(d: &mut D, allow_zero: bool, allow_reuse: bool) -> Lab {
     }
 }
 
+/// fragment id: small ids, any id, and the boundary ids
+pub fn frag_id(d: &mut D) -> u8 {
+    match d.pick(12) {
+        0 | 1 => d.u8(),
+        2 => 255,
+        3 => [254u8, 128, 127, 64][d.pick(4)],
+        _ => d.range(0, 5) as u8,
+    }
+}
+
 pub fn pdu(d: &mut D, max: u32) -> Pdu {
     let len = d.len_class(max, &[4093, 4095, 4097, 65527, 65533, 65535]);
     let seed = if d.pick(8) == 0 { d.range(0, 2) } else { d.u32() | 4 };
@@ -148,6 +158,14 @@ pub fn ext_final(d: &mut D) -> ExtSpec {
     ExtSpec { id, data: (0..n).map(|_| d.u8()).collect() }
 }
 
+pub fn ext_chain(d: &mut D, with_final: bool) -> Vec<ExtSpec> {
+    let mut v: Vec<ExtSpec> = (0..d.range(if with_final { 0 } else { 1 }, 3)).map(|_| ext_nonfinal(d)).collect();
+    if with_final {
+        v.push(ext_final(d));
+    }
+    v
+}
+
 pub fn reuse_cfg(d: &mut D) -> ReuseCfg {
     match d.pick(5) {
         0 | 1 => ReuseCfg::Default,
@@ -162,10 +180,14 @@ pub fn mutation(d: &mut D) -> c05::Mutation {
 }
 
 pub fn rx_op(d: &mut D) -> c05::RxOp {
-    match d.pick(8) {
+    match d.pick(10) {
+        8 | 9 => {
+            let with_final = d.pick(4) == 0;
+            c05::RxOp::Ext { lab: lab(d, true, true), id: frag_id(d), len: d.range(0, 199) as u16, first: d.bool(), ptype: ptype_user(d), exts: ext_chain(d, with_final) }
+        }
         0 => c05::RxOp::Provision(d.range(0, 3) as u8),
         1 | 2 => c05::RxOp::Complete { lab: lab(d, true, true), len: d.range(0, 300) as u16 },
-        3 | 4 | 5 => c05::RxOp::Train { lab: lab(d, true, true), id: if d.bool() { d.range(0, 5) as u8 } else { d.u8() }, len: d.range(1, 400) as u16, cut: d.range(0, 300) as u16, upto: d.range(1, 3) as u8 },
+        3 | 4 | 5 => c05::RxOp::Train { lab: lab(d, true, true), id: frag_id(d), len: d.range(1, 400) as u16, cut: d.range(0, 300) as u16, upto: d.range(1, 3) as u8 },
         6 => c05::RxOp::Reset,
         _ => c05::RxOp::Raw(d.bytes(40)),
     }
@@ -173,7 +195,7 @@ pub fn rx_op(d: &mut D) -> c05::RxOp {
 
 pub fn c05_rand(data: &[u8]) -> c05::RandCase {
     let mut d = D::new(data);
-    let slots = d.range(1, 4) as u8;
+    let slots = if d.pick(6) == 0 { 0 } else { d.range(1, 4) as u8 };
     let pdu_size = match d.pick(3) {
         0 => 0,
         1 => d.range(1, 64) as u16,
@@ -196,7 +218,7 @@ pub fn c05_rand(data: &[u8]) -> c05::RandCase {
 
 pub fn c08_case(data: &[u8]) -> c08::Case {
     let mut d = D::new(data);
-    let slots = d.range(1, 4) as u8;
+    let slots = if d.pick(6) == 0 { 0 } else { d.range(1, 4) as u8 };
     let pdu_size = match d.pick(3) {
         0 => 0,
         1 => d.range(1, 50) as u16,
@@ -208,7 +230,7 @@ pub fn c08_case(data: &[u8]) -> c08::Case {
         vec![]
     };
     let ops = d.vec(1, 40, |d| {
-        let id = |d: &mut D| if d.pick(5) == 0 { d.u8() } else { d.range(0, 5) as u8 };
+        let id = |d: &mut D| frag_id(d);
         let len = |d: &mut D| match d.pick(7) {
             0..=2 => d.range(0, 40) as u16,
             3..=5 => d.range(40, 200) as u16,
@@ -238,7 +260,7 @@ pub fn c08_case(data: &[u8]) -> c08::Case {
 
 pub fn c03_case(data: &[u8]) -> c03::Case {
     let mut d = D::new(data);
-    let slots = d.range(1, 4) as u8;
+    let slots = if d.pick(6) == 0 { 0 } else { d.range(1, 4) as u8 };
     let storage_delta = match d.pick(5) {
         0 => d.irange(1, 100) as i16,
         1 => d.irange(-40, -1) as i16,
@@ -386,7 +408,7 @@ pub fn c18_case(data: &[u8]) -> c18::Case {
 
 pub fn c16_case(data: &[u8]) -> c16::Case {
     let mut d = D::new(data);
-    let slots = d.range(1, 4) as u8;
+    let slots = if d.pick(6) == 0 { 0 } else { d.range(1, 4) as u8 };
     let pdu_size = if d.pick(4) == 0 { d.range(1, 7) as u16 } else { d.range(8, 200) as u16 };
     let prefix = d.vec(0, 30, |d| match d.pick(14) {
         0..=7 => c16::Pre::Op(rx_op(d)),
@@ -401,7 +423,7 @@ pub fn c16_case(data: &[u8]) -> c16::Case {
         probe1_lab: lab(&mut d, false, false),
         probe1_len: d.u16(),
         probe2_lab: lab(&mut d, false, false),
-        probe2_id: if d.pick(4) == 0 { d.u8() } else { d.range(0, 7) as u8 },
+        probe2_id: frag_id(&mut d),
         probe2_len: d.u16(),
         probe2_cuts: d.vec(1, 3, |d| d.range(1, 99) as u16),
         probe2_ext: d.bool(),
@@ -410,9 +432,9 @@ pub fn c16_case(data: &[u8]) -> c16::Case {
 
 pub fn c17_case(data: &[u8]) -> c17::RandCase {
     let mut d = D::new(data);
-    let k = d.range(1, 4) as u8;
+    let k = if d.pick(6) == 0 { 0 } else { d.range(1, 4) as u8 };
     let ops = d.vec(1, 120, |d| {
-        let id = |d: &mut D| if d.pick(4) == 0 { d.u8() } else { d.range(0, 7) as u8 };
+        let id = |d: &mut D| frag_id(d);
         match d.pick(21) {
             0..=2 => c17::Op::ProvNew(d.range(0, 2) as u8),
             3 | 4 => c17::Op::ProvHand,
@@ -514,7 +536,8 @@ pub fn c04a_case(data: &[u8]) -> c04::CaseA {
 
 pub fn c04b_case(data: &[u8]) -> c04::CaseB {
     let mut d = D::new(data);
-    let ops = d.vec(1, 50, |d| match d.pick(19) {
+    let ops = d.vec(1, 50, |d| match d.pick(20) {
+        19 => c04::RxB::Raw(vec![0u8; d.range(2, 5) as usize]),
         0..=13 => {
             let l = match d.pick(9) {
                 0..=2 => [Lab::Six(ALPHA6[0]), Lab::Six(ALPHA6[1]), Lab::Three(ALPHA3[0]), Lab::Three(ALPHA3[1]), Lab::Six(ALPHA6[2])][d.pick(5)],
@@ -534,9 +557,13 @@ pub fn c04b_case(data: &[u8]) -> c04::CaseB {
 
 pub fn c07_case(data: &[u8]) -> c07::Scenario {
     let mut d = D::new(data);
-    let k = d.range(2, 8) as u8;
+    let k: u16 = match d.pick(10) {
+        0 => 256,
+        1 => 128,
+        _ => d.range(2, 8) as u16,
+    };
     let n = (d.range(2, 4) as usize).min(k as usize);
-    let mut residues: Vec<u8> = (0..k).collect();
+    let mut residues: Vec<u16> = (0..k).collect();
     let mut trains = vec![];
     for _ in 0..n {
         let r = residues.remove(d.pick(residues.len()));
